@@ -19,6 +19,7 @@ import warnings
 import numpy as np
 
 from vf import core
+from vf import errorpaths
 from vf.oracles import km
 
 PROPERTY = "C19"
@@ -256,28 +257,28 @@ def case_z0(case):
         dws = 2.0 + 1.5 * np.sin(np.radians(dwd * 3)) ** 2 + (np.arange(nd) % 7) * 0.13
         dus = 0.25 + (np.arange(nd) % 5) * 0.07
         dL = np.array([(-30.0, -400.0, 1e9, 150.0, 40.0)[i % 5] for i in range(nd)])
-        for win in (22, 10, 45, 1):
+        for win in (22, 10, 45, 1, 22.5, 7.5, 1.25):  # the documented "45-degree window" is half_wd_win = 22.5
             got = estimateZ0(dzm, dws, dwd, dus, dL, half_wd_win=win)
             want = _z0_oracle(zmv, dws, dwd, dus, dL, win)
             n += 1
             if not np.allclose(got, want, rtol=1e-10, atol=0, equal_nan=True):
                 i = int(np.nanargmax(np.abs(got / want - 1)))
-                v.append({"sub": "z0-window", "sig": "z0-window", "msg": "estimateZ0 (window %d, zm=%g as %s): observation at %.1f deg gets %.8g, the median over its circular direction window is %.8g" % (win, zmv, ztype, dwd[i], got[i], want[i])})
+                v.append({"sub": "z0-window", "sig": "z0-window", "msg": "estimateZ0 (window %g, zm=%g as %s): observation at %.1f deg gets %.8g, the median over its circular direction window is %.8g" % (win, zmv, ztype, dwd[i], got[i], want[i])})
             # whole-degree directions 0..359 (what a logger that reports integer degrees delivers), as floats and as integers:
             # every window edge falls exactly on an observation
             for wdt in (float, np.int64):
                 iwd = np.arange(0, 360).astype(wdt)
-                got = estimateZ0(dzm, dws, iwd, dus, dL, half_wd_win=win)
-                want = _z0_oracle(zmv, dws, iwd.astype(float), dus, dL, win)
+                goti = estimateZ0(dzm, dws, iwd, dus, dL, half_wd_win=win)
+                wanti = _z0_oracle(zmv, dws, iwd.astype(float), dus, dL, win)
                 n += 1
-                if not np.allclose(got, want, rtol=1e-10, atol=0, equal_nan=True):
-                    i = int(np.nanargmax(np.abs(got / want - 1)))
-                    v.append({"sub": "z0-window", "sig": "z0-window/whole-degrees", "msg": "estimateZ0 (window %d, zm=%g as %s, whole-degree directions as %s): observation at %d deg gets %.8g, the median over its circular direction window is %.8g" % (win, zmv, ztype, np.dtype(wdt).name, int(iwd[i]), got[i], want[i])})
+                if not np.allclose(goti, wanti, rtol=1e-10, atol=0, equal_nan=True):
+                    i = int(np.nanargmax(np.abs(goti / wanti - 1)))
+                    v.append({"sub": "z0-window", "sig": "z0-window/whole-degrees", "msg": "estimateZ0 (window %g, zm=%g as %s, whole-degree directions as %s): observation at %d deg gets %.8g, the median over its circular direction window is %.8g" % (win, zmv, ztype, np.dtype(wdt).name, int(iwd[i]), goti[i], wanti[i])})
             for rot in (1, 23, 90, 137, 338):
                 r = estimateZ0(dzm, dws, (dwd + rot) % 360.0, dus, dL, half_wd_win=win)
                 n += 1
                 if not np.allclose(r, got, rtol=1e-12, atol=0, equal_nan=True):
-                    v.append({"sub": "z0-rotation", "sig": "z0-rotation", "msg": "estimateZ0 (window %d, dense lattice, zm=%g as %s) changes under a common rotation by %d degrees (max rel. change %.2e)" % (win, zmv, ztype, rot, np.nanmax(np.abs(r / got - 1)))})
+                    v.append({"sub": "z0-rotation", "sig": "z0-rotation", "msg": "estimateZ0 (window %g, dense lattice, zm=%g as %s) changes under a common rotation by %d degrees (max rel. change %.2e)" % (win, zmv, ztype, rot, np.nanmax(np.abs(r / got - 1)))})
                     break
         # data gaps and rejected records: a sparse series (one record every 25 degrees, so a +-10 degree window holds
         # one record and a +-22 degree window at most two) in which single records are unusable - a NaN wind speed (logger
@@ -340,6 +341,7 @@ def run(ctx):
         "mass: resolution ladder per physical point (non-trivial when the peak is resolved by >= 4 cells at 20 m); estimateZ0: 3 heights x 3 dtypes x 2 windows x 5 rotations; evaluations counts model calls"
     )
     ctx.run_cases(case_cells, _chunks(phys, 8), sub="cells+rotation", chunksize=1)
+    errorpaths.run_threaded(ctx, case_cells, _chunks(phys, 8)[:2], threads=(2, 3, 4, 6))
     ctx.run_cases(case_types, _chunks(ints, 8), sub="scalar-types", chunksize=1)
     ctx.run_cases(case_mass, [{"p": list(p), "tier": ctx.tier} for p in phys[:: (2 if ctx.tier == "quick" else 1)]], sub="captured-mass", chunksize=1)
     ctx.run_cases(case_z0, [{"zm": zz, "ztype": t} for zz, t in itertools.product((2.0, 10.0, 30.0), ("float", "int", "np.int64"))], sub="estimateZ0", chunksize=1)
